@@ -630,8 +630,7 @@ def _split_tuple_assigns(stmts: List[ast.stmt]) -> List[ast.stmt]:
             for hd in st.handlers:
                 hd.body = _split_tuple_assigns(hd.body)
         if isinstance(st, ast.Assign) and len(st.targets) == 1 and isinstance(st.targets[0], ast.Tuple) and isinstance(st.value, ast.Tuple) \
-                and len(st.targets[0].elts) == len(st.value.elts) and all(isinstance(t, ast.Name) for t in st.targets[0].elts) \
-                and all(isinstance(v, ast.Name) and "__" in v.id for v in st.value.elts):
+                and len(st.targets[0].elts) == len(st.value.elts) and all(isinstance(t, ast.Name) for t in st.targets[0].elts):
             tnames = {t.id for t in st.targets[0].elts}
             if not any(isinstance(n, ast.Name) and n.id in tnames for v in st.value.elts for n in ast.walk(v)):
                 for t, v in zip(st.targets[0].elts, st.value.elts):
@@ -993,11 +992,12 @@ def normalise_module(module_name: str, tree: ast.Module) -> ast.Module:
             if isinstance(st, FDEFS):
                 inl.inline_expressions(st, None)
         tree.body = inl.inline_statements(tree.body, None)
-        tree.body = _split_tuple_assigns(tree.body)
+        _swap_negative_ifs(tree)
+    tree.body = _split_tuple_assigns(tree.body)
+    if inl.helpers:
         for n in ast.walk(tree):
             if isinstance(n, FDEFS):
                 _eliminate_aliases(n)
-        _swap_negative_ifs(tree)
     tree.body = _flatten_block(tree.body)
     tree = _GetattrLiteral().visit(tree)
     tree = _SpliceStarredTuples().visit(tree)
